@@ -261,6 +261,10 @@ func c06r1(c *Ctx, r *Report) {
 func runC06(c *Ctx, r *Report) {
 	l := c.L
 	c06r1(c, r)
+	defer c13r8(c, r) // a record is built into its slot under the list lock (Snapshot copies the last chunk under it)
+	defer c07r5(c, r) // the record's own bytes are kept when the searchable text is a transformation of it
+	defer c06r6(c, r) // nobody writes through an alias of an item's rune storage
+	defer c13r6(c, r) // --tail trimming writes only into chunks of its own
 
 	// ---------------- R2 ----------------
 	r.rule("C06-R2", "A + B + C", "P1",
@@ -439,6 +443,12 @@ func checkBuilder(r *Report, b *ssa.Function) {
 
 func runC10(c *Ctx, r *Report) {
 	l := c.L
+	defer func() {
+		c10r5(c, r)
+		if c.thorough() {
+			c08r3(c, r) // change-nth invalidates everything that was computed under the old field selection
+		}
+	}()
 	rng := l.Named("fzf", "Range")
 	transform := l.Fn("fzf", "Transform")
 	parseRange := l.Fn("fzf", "ParseRange")
